@@ -59,7 +59,7 @@ PROPS = {
                 pending=['bound_step_partial (global length bound outside concat / str->list conversions)']),
     'C04': dict(obligations=lambda: P('SqProps.C04') + T('SqTie.Consts', 'numeric_types_tie') + TIE_FN,
                 slices=['num'], monitors=['c04'],
-                pending=['a digits bound for sum over Decimals (each partial sum goes through `fix`: ≤ 28) and for round with a digits argument; int / floor / ceil / one-argument round are the findings D13, sum over host ints D16; min / max / abs are proved']),
+                pending=['int / floor / ceil / one-argument round are the findings D13, sum over host ints D16 (unbounded by design of the code); min / max / abs / sum over decimals / round(x, n) / + - * / ** are proved']),
     'C05': dict(obligations=lambda: P('SqProps.C05') + TIE_RX,
                 slices=['regex'], monitors=['c05'],
                 pending=['regex_cost_bound (abstract cost model under "the engine honours its timeout")']),
